@@ -987,6 +987,13 @@ class AstEval:
                 raise SyntaxError(f"{val.name()} statement outside loop")
         return val
 
+    async def import_assign(self, name, val):
+        """Bind an imported name like an assignment does (function local, closure variable or declared global)."""
+        if "." in name:
+            self.sym_table[name] = val
+        else:
+            await self.recurse_assign(ast.Name(id=name, ctx=ast.Store()), val)
+
     async def ast_import(self, arg):
         """Execute import."""
         for imp in arg.names:
@@ -1001,7 +1008,7 @@ class AstEval:
                     mod = await Function.hass.async_add_executor_job(importlib.import_module, imp.name)
                 else:
                     mod = sys.modules[imp.name]
-            self.sym_table[imp.name if imp.asname is None else imp.asname] = mod
+            await self.import_assign(imp.name if imp.asname is None else imp.asname, mod)
 
     async def ast_importfrom(self, arg):
         """Execute from X import Y."""
@@ -1011,7 +1018,7 @@ class AstEval:
                 mod = await self.global_ctx.module_import(imp.name, arg.level)
                 if not mod:
                     raise ModuleNotFoundError(f"module '{imp.name}' not found")
-                self.sym_table[imp.name if imp.asname is None else imp.asname] = mod
+                await self.import_assign(imp.name if imp.asname is None else imp.asname, mod)
             return
         if arg.module == "stubs" or arg.module.startswith("stubs."):
             for imp in arg.names:
@@ -1038,7 +1045,9 @@ class AstEval:
                     if name[0] != "_":
                         self.sym_table[name] = value
             else:
-                self.sym_table[imp.name if imp.asname is None else imp.asname] = getattr(mod, imp.name)
+                await self.import_assign(
+                    imp.name if imp.asname is None else imp.asname, getattr(mod, imp.name)
+                )
 
     async def ast_if(self, arg):
         """Execute if statement."""
@@ -2104,6 +2113,12 @@ class AstEval:
                         for name in await self.get_target_names(item.optional_vars):
                             local_names.add(name)
                             names.add(name)
+            elif cls_name in {"Import", "ImportFrom"}:
+                for imp in arg.names:
+                    name = imp.asname if imp.asname is not None else imp.name
+                    if "." not in name and name != "*":
+                        local_names.add(name)
+                        names.add(name)
             elif cls_name == "Try":
                 for handler in arg.handlers:
                     if handler.name is not None:
